@@ -39,7 +39,7 @@ ORCH = 'chainables.orchestrate'
 
 
 def run(ctx: Ctx):
-  for r in (r1, r2, r3, r4, r6, r7, r8):
+  for r in (r1, r2, r3, r4, r6, r7, r8, r12):
     ctx.guard(r)
   from mlmverif.props import c09
   from mlmverif.props import c13, c16
@@ -67,6 +67,46 @@ def run(ctx: Ctx):
               ' one incl. its configuration (R-C09-2) and a range never reads'
               ' past its stop (R-C09-6); and the shards ARE a partition: shard() computes the'
               ' balanced contiguous split for all (n, K, k) (R-C09-1)', _c09_shared, min_instances=12)
+
+def r12(ctx: Ctx):
+  rule = 'R-C03-12'
+  ctx.rule(rule, '"as one fused stage or as a chain of named stages ... through the interleaved stage'
+           ' runner": only the LAST stage of a chain may drop its batches (aggregate_only); every other'
+           ' stage feeds the next one. In run_pipeline_interleaved the per-stage aggregate_only /'
+           ' with_result argument therefore depends on the position of the stage (it mentions a value'
+           ' derived from the loop index compared with the number of stages), not merely on whether'
+           ' the stage aggregates — an aggregating stage in the middle of the chain would hand `None`'
+           ' batches to its successor')
+  fi = ctx.repo.func('chainables.orchestrate', 'run_pipeline_interleaved')
+  n = 0
+  for lp in walk_no_nested(fi.node):
+    if not isinstance(lp, ast.For):
+      continue
+    calls = [c for c in ast.walk(lp) if isinstance(c, ast.Call) and kwarg(c, 'aggregate_only') is not None]
+    if not calls:
+      continue
+    # names that carry the position: the enumerate index and everything computed from it
+    idx = set()
+    if isinstance(lp.iter, ast.Call) and unparse(lp.iter.func) == 'enumerate' and isinstance(lp.target, ast.Tuple) and isinstance(
+        lp.target.elts[0], ast.Name):
+      idx.add(lp.target.elts[0].id)
+    for _ in range(2):
+      for x in ast.walk(lp):
+        if isinstance(x, ast.Assign) and any(isinstance(y, ast.Name) and y.id in idx for y in ast.walk(x.value)):
+          idx |= {t.id for t in x.targets if isinstance(t, ast.Name)}
+    for c in calls:
+      n += 1
+      v = kwarg(c, 'aggregate_only')
+      positional = any(isinstance(y, ast.Name) and y.id in idx for y in ast.walk(v))
+      if positional and idx:
+        ctx.ok(rule, fi, f'aggregate_only={unparse(v)[:40]} depends on the stage position', c)
+      else:
+        ctx.fail(rule, fi, 'run_pipeline_interleaved: only the last stage may drop its batches',
+                 f'`aggregate_only={unparse(v)[:50]}` does not depend on the position of the stage in the chain: a'
+                 ' non-last stage that aggregates is run without results and enqueues None for every batch, which'
+                 ' is what the next stage then receives', node=c)
+  ctx.floor(rule, 1, n)
+
 
 
 def _c04_shared(sub, m):
@@ -495,6 +535,10 @@ from mlmverif.selfcheck import B, OK  # noqa: E402
 
 _T = 'chainables/transform.py'
 VARIANTS = [
+    B('every-aggregating-stage-drops-its-batches', 'chainables/orchestrate.py',
+      '        aggregate_only=aggregate_only and is_last_stage,', '        aggregate_only=aggregate_only and bool(transform.agg_fns),', 'R-C03-12'),
+    OK('last-stage-test-inlined', 'chainables/orchestrate.py',
+       '        aggregate_only=aggregate_only and is_last_stage,', '        aggregate_only=aggregate_only and i == len(named_transforms) - 1,'),
     B('revert-shard-only-source-stage', _T,
       'input_state=shard if has_source else None', 'input_state=shard', 'R-C03-8'),
     B('revert-get-result-foreign-keys', _T,
